@@ -161,6 +161,7 @@ Query(r, b, sl, snd, res) ==
 
 (* CheckMajor23 alone *)
 Check(sl, r) ==
+  /\ TallyOnly
   /\ r = Major23(vals, sl)
   /\ last' = [op |-> "Check", sl |-> sl, r |-> r]
   /\ UNCHANGED <<vals, pend, nonce, open, ntx, chain, halted, rep>>
@@ -175,7 +176,7 @@ Next ==
   \/ CloseBlock
   \/ \E r \in Replicas, out \in {"ok", "endBlockError"} : Exec(r, out)
   \/ \E r \in Replicas, b \in Bodies, sl \in SigLists, snd \in Accounts, res \in Results : Query(r, b, sl, snd, res)
-  \/ (TallyOnly /\ \E sl \in SigLists, r \in BOOLEAN : Check(sl, r))
+  \/ \E sl \in SigLists, r \in BOOLEAN : Check(sl, r)
 
 \* The same relation with the reply computed instead of guessed (11 times fewer evaluations); TLC cannot label
 \* these steps, the action and its arguments are read from `last`.  Used for the large configurations.
@@ -188,7 +189,7 @@ NextFast ==
   \/ \E r \in Replicas, b \in Bodies, sl \in SigLists, snd \in Accounts :
         /\ rep[r].h > 0
         /\ Query(r, b, sl, snd, IF QueryOpen THEN Result(rep[r].vals, chain[rep[r].h].nonce, b, sl, "contract", snd) ELSE "rejQuery")
-  \/ (TallyOnly /\ \E sl \in SigLists : Check(sl, Major23(vals, sl)))
+  \/ \E sl \in SigLists : Check(sl, Major23(vals, sl))
 
 Spec     == Init /\ [][Next]_vars
 SpecFast == Init /\ [][NextFast]_vars
